@@ -143,6 +143,36 @@ def main():
             for n in range(1, 4 if tier == "quick" else 5):
                 for m in range(1 << n):
                     g.struct(f"A{style}{kind[0].upper()}{n}M{m}", kind, n, m, style=style)
+    # unusual declarations: where-clauses, defaults, const generics, lifetimes, type parameters used only in ignored
+    # fields, field names that could collide with the generated code, raw identifiers, explicit discriminants,
+    # more fields than the largest tuple impl
+    D = "#[derive(Trace, Finalize)]\n#[allow(dead_code)]\n"
+    g.types.append(D + "struct GW<T> where T: Trace + 'static { a: T, b: Probe }\n")
+    g.value("GW<Probe> (where clause)", "GW { a: Probe(0), b: Probe(1) }", [1, 1])
+    g.types.append(D + "struct GDef<T = Probe> { a: T, b: Probe }\n")
+    g.value("GDef (default type parameter)", "GDef::<Probe> { a: Probe(0), b: Probe(1) }", [1, 1])
+    g.types.append(D + "struct GConst<const N: usize> { a: [Probe; N], b: Probe }\n")
+    g.value("GConst<2> (const generic)", "GConst::<2> { a: [Probe(0), Probe(1)], b: Probe(2) }", [1, 1, 1])
+    g.value("GConst<0>", "GConst::<0> { a: [], b: Probe(0) }", [1])
+    g.types.append("static ZERO: u8 = 0;\n" + D + "struct GLife<'a> { #[rust_cc(ignore)] r: &'a u8, b: Probe, c: Probe }\n")
+    g.value("GLife<'static> (lifetime parameter)", "GLife { r: &ZERO, b: Probe(0), c: Probe(1) }", [1, 1])
+    g.types.append(D + "struct GMixed<'a, T: Trace + 'static, const N: usize> where T: Finalize { #[rust_cc(ignore)] r: &'a u8, a: [T; N], b: Probe }\n")
+    g.value("GMixed (lifetime + type + const + where)", "GMixed::<Probe, 2> { r: &ZERO, a: [Probe(0), Probe(1)], b: Probe(2) }", [1, 1, 1])
+    g.types.append(D + "struct FNames { ctx: Probe, __binding_0: Probe, r#type: Probe, self_: Probe, state: Probe }\n")
+    g.value("FNames (field names ctx / __binding_0 / r#type)", "FNames { ctx: Probe(0), __binding_0: Probe(1), r#type: Probe(2), self_: Probe(3), state: Probe(4) }", [1, 1, 1, 1, 1])
+    g.types.append(D + "#[repr(u8)]\nenum EDisc { A(Probe) = 3, B { x: Probe, #[rust_cc(ignore)] y: Probe } = 9, C = 200 }\n")
+    g.value("EDisc::A (explicit discriminants)", "EDisc::A(Probe(0))", [1])
+    g.value("EDisc::B", "EDisc::B { x: Probe(0), y: Probe(1) }", [1, 0])
+    g.value("EDisc::C", "EDisc::C", [])
+    g.types.append(D + "enum GEW<T, U> where T: Trace + 'static, U: 'static { A(T, #[rust_cc(ignore)] U), B { t: T, p: Probe } }\n")
+    g.value("GEW::A (generic enum with where clause)", "GEW::<Probe, NoTrace>::A(Probe(0), NoTrace(1))", [1])
+    g.value("GEW::B", "GEW::<Vec<Probe>, NoTrace>::B { t: vec![Probe(0), Probe(1)], p: Probe(2) }", [1, 1, 1])
+    n16 = 16
+    g.types.append(D + "struct T16(" + ", ".join(["Probe"] * n16) + ");\n")
+    g.value("T16 (16 tuple fields)", "T16(" + ", ".join(f"Probe({i})" for i in range(n16)) + ")", [1] * n16)
+    g.types.append(D + "struct N20 { " + ", ".join(f"f{i}: Probe" for i in range(20)) + " }\n")
+    g.value("N20 (20 named fields)", "N20 { " + ", ".join(f"f{i}: Probe({i})" for i in range(20)) + " }", [1] * 20)
+    g.ntypes += 11
     # enums
     maxv = 2 if tier == "quick" else 4
     nshapes = Gen.NBASE
